@@ -49,7 +49,8 @@ theorem lchlab_forward (x : Xyz ℝ) :
   have e : ∀ a b, 180 * Complex.arg ⟨a, b⟩ / Real.pi = hueDeg a b := by intros; unfold hueDeg; ring
   simp only [Lchlab.from_Xyz, F64.get_degree_from_radian, FltReal.atan2_eq, FltReal.lit_eq, FltReal.le_eq,
     FltReal.pi_eq, FltReal.powi_eq, FltReal.sqrt_eq, chroma]
-  norm_num
+  -- `← sq` makes the proof indifferent to the source writing `x * x` or `x.powi(2)`
+  norm_num [← sq]
   simp only [e]
   split <;> simp
 
